@@ -68,56 +68,83 @@ def run(ck):
                     nonzero_cls = cname
     ck.need(zero_cls and nonzero_cls, "constraint classes with operator == / != not found")
 
+    from sa.symval import paths
+    helpers = dict((q, f_) for q, f_ in m.funcs.items() if "." not in q and q != "possible_values")
+
+    def resolved(br):
+        """Resolved expressions (effects, loop bodies, returned values, final bindings) of a dispatch branch, as (text, ast) pairs."""
+        out = []
+        for p_ in paths(br.body, helpers=helpers):
+            nodes = list(p_.effects) + ([p_.value] if p_.value is not None else []) + [v for v in p_.env.values() if isinstance(v, ast.AST)]
+            for n_ in nodes:
+                out.append((norm(n_).replace("m2_expr.", ""), n_))
+        return out
+
+    def pv_args(nodes):
+        """Texts of the arguments possible_values is called with."""
+        got = set()
+        for _t, n_ in nodes:
+            for c in ast.walk(n_):
+                if isinstance(c, ast.Call) and callee_attr(c) == "possible_values" and c.args:
+                    got.add(norm(c.args[0]))
+        return got
+
+    res = {}
     for k in KINDS:
         if k not in branches:
             continue
         br = branches[k]
-        body = ast.Module(body=br.body, type_ignores=[])
-        txt = norm(body)
+        nodes = res[k] = resolved(br)
+        txt = "\n".join(t for t, _n in nodes)
         if k in ("ExprInt", "ExprId", "ExprLoc"):
             ok = "ConstrainedValue(frozenset(), %s)" % ep in txt
             ck.ob("R1", "%s:leaf" % k, ok, m.where(br), "a leaf must be its own single unconstrained alternative")
             continue
+        called = pv_args(nodes)
         for ch in em.children(k):
             if k == "ExprAssign" and ch == "dst":
                 continue   # an assignment's value is its source
             if ch == "args":
-                ok = "possible_values(arg)" in txt and "for arg in %s.args" % ep in txt
+                ok = any(isinstance(x, (ast.ListComp, ast.GeneratorExp)) and norm(x.generators[0].iter) in ("%s.args" % ep, "%s.iter_args()" % ep) and
+                         any(isinstance(c, ast.Call) and callee_attr(c) == "possible_values" and c.args and norm(c.args[0]) in [y.id for y in ast.walk(x.generators[0].target) if isinstance(y, ast.Name)]
+                             for c in ast.walk(x.elt)) for _t, n_ in nodes for x in ast.walk(n_))
             elif k == "ExprCond" and ch == "cond":
-                ok = "(%s.cond)" % ep in txt and zero_cls in txt and nonzero_cls in txt
+                ok = ("%s(%s.cond)" % (zero_cls, ep)) in txt and ("%s(%s.cond)" % (nonzero_cls, ep)) in txt
             else:
-                ok = "possible_values(%s.%s)" % (ep, ch) in txt
+                ok = ("%s.%s" % (ep, ch)) in called
             ck.ob("R1", "%s:child:%s" % (k, ch), ok, m.where(br), "child `%s` of %s is neither enumerated nor put in a constraint" % (ch, k))
         if k == "ExprSlice":
             ck.ob("R1", "ExprSlice:rebuild", "consval.value[%s.start:%s.stop]" % (ep, ep) in txt, m.where(br), "slice alternatives must keep [start:stop]")
         if k == "ExprMem":
             ck.ob("R1", "ExprMem:rebuild", "ExprMem(consval.value, %s.size)" % ep in txt, m.where(br), "memory alternatives must keep the access size")
         if k == "ExprOp":
-            ck.ob("R1", "ExprOp:rebuild", "ExprOp(%s.op, *args_value)" % ep in txt, m.where(br), "operator alternatives must keep the operator and argument order")
+            ok = any(isinstance(c, ast.Call) and callee_attr(c) == "ExprOp" and c.args and norm(c.args[0]) == "%s.op" % ep and len(c.args) == 2 and isinstance(c.args[1], ast.Starred)
+                     for _t, n_ in nodes for c in ast.walk(n_))
+            ck.ob("R1", "ExprOp:rebuild", ok, m.where(br), "operator alternatives must keep the operator and argument order")
         if k == "ExprCompose":
-            ck.ob("R1", "ExprCompose:rebuild", "ExprCompose(*args)" in txt, m.where(br), "compose alternatives must keep argument order")
+            ok = any(isinstance(c, ast.Call) and callee_attr(c) == "ExprCompose" and len(c.args) == 1 and isinstance(c.args[0], ast.Starred) for _t, n_ in nodes for c in ast.walk(n_))
+            ck.ob("R1", "ExprCompose:rebuild", ok, m.where(br), "compose alternatives must keep argument order")
 
     # ---------------------------------------------------------------- R2
     br = branches.get("ExprCond")
     if br is not None:
-        local = {}
-        for s in br.body:
-            if isinstance(s, ast.Assign) and isinstance(s.targets[0], ast.Name) and isinstance(s.value, ast.Call):
-                local[s.targets[0].id] = callee_attr(s.value)
         arms = {}
-        for c in walk_local(ast.Module(body=br.body, type_ignores=[])):
-            if isinstance(c, ast.Call) and dotted(c.func) == "consvals.update" and c.args and isinstance(c.args[0], ast.GeneratorExp):
-                g = c.args[0]
-                src = norm(g.generators[0].iter)
-                cons = [x for x in walk_local(g.elt) if isinstance(x, ast.Call) and isinstance(x.func, ast.Attribute) and x.func.attr == "union"]
-                cname = None
-                if cons and cons[0].args and isinstance(cons[0].args[0], ast.List) and cons[0].args[0].elts and isinstance(cons[0].args[0].elts[0], ast.Name):
-                    cname = local.get(cons[0].args[0].elts[0].id)
-                arms[src] = cname
-        a1 = arms.get("possible_values(%s.src1)" % ep)
-        a2 = arms.get("possible_values(%s.src2)" % ep)
-        ck.ob("R2", "ExprCond:src1-nonzero", a1 == nonzero_cls, m.where(br), "alternatives of src1 (taken when cond != 0) carry %s, expected %s" % (a1, nonzero_cls))
-        ck.ob("R2", "ExprCond:src2-zero", a2 == zero_cls, m.where(br), "alternatives of src2 (taken when cond == 0) carry %s, expected %s" % (a2, zero_cls))
+        for _t, n_ in res.get("ExprCond", []):
+            for g in ast.walk(n_):
+                if not isinstance(g, (ast.GeneratorExp, ast.ListComp, ast.SetComp)):
+                    continue
+                it = g.generators[0].iter
+                if not (isinstance(it, ast.Call) and callee_attr(it) == "possible_values" and it.args):
+                    continue
+                cons = [norm(c.func).split(".")[-1] for c in ast.walk(g.elt) if isinstance(c, ast.Call) and norm(c.func).split(".")[-1] in (zero_cls, nonzero_cls)
+                        and c.args and norm(c.args[0]) == "%s.cond" % ep]
+                # the alternative's own constraints must be kept as well
+                keeps = any(isinstance(x, ast.Attribute) and x.attr == "constraints" for x in ast.walk(g.elt))
+                arms.setdefault(norm(it.args[0]), set()).update(cons if keeps else ["<own constraints dropped>"] + cons)
+        a1 = sorted(arms.get("%s.src1" % ep, []))
+        a2 = sorted(arms.get("%s.src2" % ep, []))
+        ck.ob("R2", "ExprCond:src1-nonzero", a1 == [nonzero_cls], m.where(br), "alternatives of src1 (taken when cond != 0) carry %s, expected %s" % (a1, nonzero_cls))
+        ck.ob("R2", "ExprCond:src2-zero", a2 == [zero_cls], m.where(br), "alternatives of src2 (taken when cond == 0) carry %s, expected %s" % (a2, zero_cls))
     zf = m.func("%s.to_constraint" % zero_cls)
     ok = any(isinstance(n, ast.Return) and norm(n.value).replace("m2_expr.", "") == "ExprAssign(self.expr, ExprInt(0, self.expr.size))" for n in walk_body(zf))
     ck.ob("R2", "%s.to_constraint" % zero_cls, ok, m.where(zf), "the == 0 constraint must be `expr = 0`")
@@ -131,7 +158,21 @@ def run(ck):
         br = branches.get(k)
         if br is None:
             continue
-        txt = norm(ast.Module(body=br.body, type_ignores=[]))
-        ck.ob("R3", "%s:product" % k, "itertools.product(*consvals_args)" in txt, m.where(br), "%s alternatives are not the Cartesian product of the arguments' alternatives" % k)
-        ck.ob("R3", "%s:constraint-union" % k, "itertools.chain(*[consval.constraints for consval in consvals_possibility])" in txt and
-              "frozenset(args_constraint)" in txt, m.where(br), "%s alternatives do not carry the union of their arguments' constraints" % k)
+        nodes = res.get(k, [])
+        loops = [n_ for _t, n_ in nodes if isinstance(n_, ast.Call) and norm(n_.func) == "__loop__"]
+        prod = [l for l in loops if isinstance(l.args[1], ast.Call) and norm(l.args[1].func) in ("itertools.product", "product") and l.args[1].args and isinstance(l.args[1].args[0], ast.Starred)]
+        ck.ob("R3", "%s:product" % k, bool(prod), m.where(br), "%s alternatives are not the Cartesian product of the arguments' alternatives" % k)
+        tgt = norm(prod[0].args[0]) if prod else "?"
+        ok = False
+        for _t, n_ in nodes:
+            for c in ast.walk(n_):
+                if isinstance(c, ast.Call) and callee_attr(c) == "ConstrainedValue" and len(c.args) == 2:
+                    a0 = c.args[0]
+                    union = any(isinstance(x, (ast.GeneratorExp, ast.ListComp)) and norm(x.generators[0].iter) == tgt and
+                                isinstance(x.elt, ast.Attribute) and x.elt.attr == "constraints" and not x.generators[0].ifs for x in ast.walk(a0))
+                    merged = any(isinstance(x, ast.Call) and (norm(x.func) in ("itertools.chain", "chain", "itertools.chain.from_iterable", "chain.from_iterable") or
+                                                                  (isinstance(x.func, ast.Attribute) and x.func.attr == "union")) for x in ast.walk(a0))
+                    frozen = isinstance(a0, ast.Call) and callee_attr(a0) == "frozenset"
+                    if union and merged and frozen:
+                        ok = True
+        ck.ob("R3", "%s:constraint-union" % k, ok, m.where(br), "%s alternatives do not carry the union of their arguments' constraints" % k)
